@@ -159,7 +159,15 @@ func (g *gen) bind(base, sort, term string) string {
 	return n
 }
 
-func (g *gen) assume(f string) { g.asserts = append(g.asserts, "(assert "+f+")") }
+func (g *gen) assume(f string) {
+	if strings.Contains(f, "#skip") {
+		// "#skip" is the guard of evaluation contexts that must not generate side assumptions (under quantifiers): a side
+		// assumption that reaches this point is dropped (sound: fewer assumptions) and counted, never written into a query
+		g.unmodelled["assumption-under-skip-guard"]++
+		return
+	}
+	g.asserts = append(g.asserts, "(assert "+f+")")
+}
 
 func (g *gen) oblige(o obligation) {
 	g.occ[o.name]++
